@@ -27,7 +27,7 @@ type outOffer struct {
 	Target string // "fake" (no such endpoint: time-out), "script", "live"
 	Reply  string // for "script": "empty", "wrongcode", "undecodable", "wrongcount", "declined", "accept-nodial", "silent"
 	NKeys  int
-	Bad    string // "", "toomany" (65 keys), "hugekey" (2049-byte key): the OFFER cannot be encoded
+	Bad    string // "", "toomany" (65 keys), "hugekey" (2049-byte key): the OFFER cannot be encoded; "oversize": it encodes (<= 64 keys of <= 2048 bytes) but is larger than a discv5 packet
 }
 
 type c16Out struct {
@@ -47,7 +47,7 @@ func genC16Out(t *rapid.T) c16Out {
 			Reply: rapid.SampledFrom([]string{"empty", "wrongcode", "undecodable", "wrongcount", "declined", "accept-nodial", "silent"}).Draw(t, "reply"),
 			NKeys: rapid.SampledFrom([]int{1, 1, 2, 5, 64}).Draw(t, "nkeys")}
 		if rapid.IntRange(0, 9).Draw(t, "bad") == 0 {
-			o.Bad = rapid.SampledFrom([]string{"toomany", "hugekey"}).Draw(t, "badkind")
+			o.Bad = rapid.SampledFrom([]string{"toomany", "hugekey", "oversize", "oversize"}).Draw(t, "badkind")
 		}
 		offers[i] = o
 	}
@@ -194,6 +194,9 @@ func runC16Out(p c16Out, c *stats.Case) error {
 		if o.Bad == "toomany" {
 			n = 65
 		}
+		if o.Bad == "oversize" && n < 40 {
+			n = 40
+		}
 		entries := make([]*portalwire.ContentEntry, n)
 		for k := range entries {
 			key := append([]byte{0x00}, []byte(o.Reply)...)
@@ -202,6 +205,9 @@ func runC16Out(p c16Out, c *stats.Case) error {
 			}
 			if o.Bad == "hugekey" && k == n-1 {
 				key = make([]byte, 2049)
+			}
+			if o.Bad == "oversize" {
+				key = append(key, make([]byte, 40)...)
 			}
 			entries[k] = &portalwire.ContentEntry{ContentKey: key, Content: fillBytes(30+k, byte(i))}
 		}
